@@ -57,7 +57,7 @@ def sources(wd, tier, seed):
     hists = []
     for _ in range(400 if tier == "quick" else 8000):
         k = rnd.randint(2, 7)
-        hists.append(dict(cat=rnd.randint(1, 5),
+        hists.append(dict(cat=rnd.randint(1, 6),
                           h=[rnd.choice([rnd.randint(1, c10.NTABLES), rnd.randint(c10.NTABLES + 1, c10.NITEMS), rnd.randint(c10.NTABLES + 1, c10.NITEMS)]) for _ in range(k)]))
     nsh = 8
     shards = core.shard(hists, nsh)
